@@ -138,6 +138,59 @@ fn main() {
         }
     }
       }
+    // dense streams: a <= 1 object prefix + a stream of circles (plain / finish + clap sounds / overlapping / stacked),
+    // 8 difficulty presets (the pattern generators' RNG is seeded from them), every key mod
+    {
+        use vh::gen::{Alphabet, DiffPreset, MapSpec, END_REL};
+        let alpha = Alphabet::product(&[Kind::Circle, Kind::Slider2, Kind::Slider5, Kind::Spinner(600)], &[END_REL + 110], &[PosK::Far], &[0, 4], &[0]);
+        let n_pref = alpha.count_upto(1);
+        let streams: [(u32, u32); 3] = [(96, 62), (48, 125), (16, 250)];
+        let presets = [DiffPreset::D0, DiffPreset::D4, DiffPreset::D5, DiffPreset::D6, DiffPreset::D7, DiffPreset::D8, DiffPreset::D1, DiffPreset::D2];
+        let styles: [u8; 4] = [0, 2, 1, 6];
+        let total = n_pref * (streams.len() * presets.len() * styles.len()) as u64;
+        let kms = key_mods(true);
+        ctx.universe("dense-streams/prefix<=1+stream", total, |idx, l| {
+            let pi = idx % n_pref;
+            let mut r = (idx / n_pref) as usize;
+            let stream = streams[r % streams.len()];
+            r /= streams.len();
+            let diff = presets[r % presets.len()];
+            let stream_style = styles[r / presets.len()];
+            let spec = MapSpec { diff, stream, stream_style, ..MapSpec::new(0, alpha.seq(pi, 1)) };
+            let map = spec.decode();
+            l.nontrivial();
+            let ctxs = |extra: String| format!("{extra}\nspec={}", spec.describe());
+            for (keys, m) in &kms {
+                let mn = map.clone().convert(GameMode::Mania, &m.build(GameMode::Mania)).expect("convertible");
+                l.states(1);
+                l.checked(1);
+                if let Some(msg) = well_formed(&mn) {
+                    l.violation("mania_form", || ctxs(format!("mania convert ({m:?}): {msg}")));
+                    return;
+                }
+                let cs = mn.cs;
+                if keys.is_some_and(|k| cs != k as f32) || (keys.is_none() && !((4.0..=7.0).contains(&cs))) {
+                    l.violation("mania_keys", || ctxs(format!("mania convert ({m:?}): key count (cs) = {cs}")));
+                    return;
+                }
+                for h in &mn.hit_objects {
+                    let col = (f64::from(h.pos.x) * f64::from(cs) / 512.0).floor();
+                    if !h.pos.x.is_finite() || h.pos.x < 0.0 || col >= f64::from(cs) {
+                        l.violation("mania_column", || ctxs(format!("mania convert ({m:?}): object at t={} has x={} i.e. column {col} which is not below {cs}", h.start_time, h.pos.x)));
+                        return;
+                    }
+                }
+            }
+            for target in [GameMode::Taiko, GameMode::Catch] {
+                let c = map.clone().convert(target, &ModSpec::Bits(0).build(target)).expect("convertible");
+                l.checked(1);
+                if let Some(msg) = well_formed(&c) {
+                    l.violation("dense_form", || ctxs(format!("{target:?} convert: {msg}")));
+                    return;
+                }
+            }
+        });
+    }
     // realistic dense patterns: every window of 48 consecutive objects of the osu! fixture (step 8) and the whole map,
     // under no key mod and 1K-10K
     {
